@@ -601,6 +601,18 @@ func (c *Chunker) buildSections(doc *model.Document) []*Section {
 						Page: pageIndex,
 						BBox: heading.BBox,
 					})
+				} else {
+					// No section is open yet: the heading belongs to the preamble
+					preambleContent = append(preambleContent, ContentElement{
+						Type: model.ElementTypeHeading,
+						Text: heading.Text,
+						Page: pageIndex,
+						BBox: heading.BBox,
+					})
+					if preambleStartPage == 0 {
+						preambleStartPage = pageIndex
+					}
+					preambleEndPage = pageIndex
 				}
 			}
 		}
